@@ -6,6 +6,8 @@ Flash3Alphabet == {"SFL3_1", "SFL3_2", "SFL3_3", "SFL3_4", "EFL3", "LIQ3", "DEPB
 Recv2Alphabet == {"CB", "START3", "START4", "END3", "END4", "W3", "R3", "W4", "R4"}
 Recv3Alphabet == {"CB", "KREF", "DREF", "KOTH", "JREF", "START3", "END3", "W3", "R3", "INITREC"}
 FlashWAlphabet == {"CB", "SFLW_65536", "SFLW_65537", "SFLW_65538", "SFLW_4294967297", "SFLW_MAX", "SFL2_1", "EFL2", "BIGB2", "DEP1"}
+RecvPAlphabet == {"START3", "START4", "PSTART3", "PSTART4", "END3", "END4", "PEND3", "W3", "R3", "W4"}
+NeedStartP == {"PSTART3", "PSTART4", "PEND3"}
 NeedSflW == {"SFLW_65536", "SFLW_65537", "SFLW_65538", "SFLW_4294967297", "SFLW_MAX"}
 NeedStart == {"START3"}
 NeedStart34 == {"START3", "START4"}
